@@ -6,6 +6,7 @@ Property theorems only; helper lemmas are in GrpcProofs/Lemmas/{LbConnState,EpSh
 -/
 import GrpcProofs.Lemmas.LbConnState
 import GrpcProofs.Lemmas.EpShard
+import GrpcProofs.Lemmas.WAgg
 namespace GrpcProofs.C35
 open GrpcModel.LbConnState GrpcModel.EpShard GrpcModel.Generated
 
@@ -127,6 +128,43 @@ theorem rr_wrap_counterexample :
   revert this
   decide
 
+/-! ### weighted_target's aggregator (balancer/weightedtarget/weightedaggregator) -/
+
+/-- Every history of Add / Remove / UpdateState / UpdateWeight / Pause / Resume / Start in which an id
+    is added once until removed and the aggregator is not used after Stop (`WAgg.RunOk`): the
+    evaluator's counters are the numbers of children whose COUNTED state (`stateToAggregate`: the
+    reported state, except that TRANSIENT_FAILURE → CONNECTING still counts as TRANSIENT_FAILURE)
+    is READY / CONNECTING / TRANSIENT_FAILURE / IDLE — in particular what Remove takes out is what
+    was counted. -/
+theorem wagg_counters_track_children (ops : List GrpcModel.WAgg.Op) (hok : GrpcModel.WAgg.RunOk {} ops)
+    (hns : (GrpcModel.WAgg.run {} ops).stopped = false) :
+    let s := GrpcModel.WAgg.run {} ops
+    s.cse.numReady = BitVec.ofNat 64 ((s.entries.map (·.agg)).count .ready) ∧
+    s.cse.numConnecting = BitVec.ofNat 64 ((s.entries.map (·.agg)).count .connecting) ∧
+    s.cse.numTransientFailure = BitVec.ofNat 64 ((s.entries.map (·.agg)).count .tf) ∧
+    s.cse.numIdle = BitVec.ofNat 64 ((s.entries.map (·.agg)).count .idle) := by
+  have h := Lemmas.WAgg.tracksW_run {} ops Lemmas.WAgg.tracksW_init hok hns
+  exact ⟨h .ready (by decide), h .connecting (by decide), h .tf (by decide), h .idle (by decide)⟩
+
+/-- … hence every state the aggregator gives to its parent follows the precedence rule over the
+    children's counted states, TRANSIENT_FAILURE when there are no children (the monitor's `pushOk`;
+    fewer than 2^64 children). -/
+theorem wagg_aggregate_precedence (ops : List GrpcModel.WAgg.Op) (op : GrpcModel.WAgg.Op)
+    (hok : GrpcModel.WAgg.RunOk {} (ops ++ [op]))
+    (hns : (GrpcModel.WAgg.step (GrpcModel.WAgg.run {} ops) op).1.stopped = false)
+    (hlen : (GrpcModel.WAgg.step (GrpcModel.WAgg.run {} ops) op).1.entries.length < 2 ^ 64)
+    (p : GrpcModel.WAgg.Push) (hp : (GrpcModel.WAgg.step (GrpcModel.WAgg.run {} ops) op).2 = some p) :
+    GrpcModel.WAgg.pushOk ((GrpcModel.WAgg.step (GrpcModel.WAgg.run {} ops) op).1.entries.map (·.agg)) p = true := by
+  have split_ok : ∀ (s : GrpcModel.WAgg.St) (l : List GrpcModel.WAgg.Op), GrpcModel.WAgg.RunOk s (l ++ [op]) →
+      GrpcModel.WAgg.RunOk s l ∧ GrpcModel.WAgg.opOk (GrpcModel.WAgg.run s l) op = true := by
+    intro s l
+    induction l generalizing s with
+    | nil => intro h; exact ⟨trivial, h.1⟩
+    | cons o t ih => intro h; obtain ⟨a, b⟩ := ih _ h.2; exact ⟨⟨h.1, a⟩, b⟩
+  obtain ⟨h1, h2⟩ := split_ok {} ops hok
+  have ht := Lemmas.WAgg.tracksW_step _ op (Lemmas.WAgg.tracksW_run {} ops Lemmas.WAgg.tracksW_init h1) h2
+  exact Lemmas.WAgg.push_ok _ op p hp (ht hns) hlen
+
 -- non-vacuity
 example : (pickSeq [.child 1 0, .child 2 1, .child 3 2] 4294967293#32 3).2 = [.child 3 2, .child 1 0, .child 1 0] := by decide
 example : (pickSeq [.child 1 0, .child 2 1, .child 3 2] 4294967289#32 3).2 = [.child 2 1, .child 3 2, .child 1 0] := by decide
@@ -134,5 +172,10 @@ example : (runTrack [.add .tf, .add .idle, .change 0 .connecting, .remove 1]).2 
 example : (runTrack [.add .tf, .add .idle, .change 0 .connecting, .remove 1]).1.currentState = .connecting := by decide
 example : (build [{ id := 1, ep := 0, state := .tf, hasPicker := true }, { id := 2, ep := 1 }]) = (.idle, [.nilp]) := by decide
 example : ((step (init false) (.update 1 [⟨0, some .ready, false⟩, ⟨1, some .tf, true⟩, ⟨0, none, false⟩]) []).2.push.map (·.agg)) = some .idle := by decide  -- rotated by 1: e0's first occurrence reports nothing (zero value IDLE)
+
+example : (GrpcModel.WAgg.step (GrpcModel.WAgg.run {} [.start, .add 1 1, .add 2 1, .upd 2 .tf, .upd 1 .tf, .upd 1 .connecting]) (.remove 1)).2
+    = some ⟨.tf, .group [(2, 1, 1)]⟩ := by decide
+example : (GrpcModel.WAgg.run {} [.start, .add 1 1, .upd 1 .tf, .upd 1 .connecting]).entries.map (fun e => (e.reported, e.agg))
+    = [(.connecting, .tf)] := by decide
 
 end GrpcProofs.C35
